@@ -161,7 +161,7 @@ for _name in ("1add", "1sub", "negate", "abs", "not", "0notequal"):
 for _name in ("add", "sub", "booland", "boolor", "numequal", "numequalverify", "numnotequal", "lessthan", "greaterthan",
               "lessthanorequal", "greaterthanorequal", "min", "max"):
     op_contract(_name, 2, numeric=2, depths=[0, 1, 7], max_paths=2500)
-op_contract("within", 3, numeric=3, depths=[0, 1, 2, 7], max_paths=2500)
+op_contract("within", 3, numeric=3, depths=[0, 1, 2, 7], max_paths=2500).tiers = ("thorough",)   # 1640 paths, ~3 min: deductive in the thorough tier, bounded in quick
 
 # ---------------------------------------------------------------------------- hashes
 for _name in ("ripemd160", "sha1", "sha256", "hash160", "hash256"):
